@@ -60,6 +60,7 @@ func sweepRunes(f func(r rune)) {
 		if r == 0xD800 {
 			r = 0xE000
 		}
+		perturbEvery(r)
 		f(r)
 	}
 }
@@ -398,6 +399,7 @@ func (s *subFiles) flush(main *CoqWriter) {
 }
 
 func genCharsets(w *CoqWriter) {
+	perturbCodecs()
 	var subs subFiles
 	w.P("(* GENERATED by `harness gen charsets` from the running code (package coding + golang.org/x/text as")
 	w.P("   linked into the harness).  Do not edit.  Every Unicode scalar value (1,112,064 of them) went through")
